@@ -362,10 +362,13 @@ CatchupResult(s, x, kvs, max, gc, now) ==
               c == s1.ns[x]
           IN IF c.max >= max THEN [s |-> s1, panic |-> FALSE]
              ELSE IF max < c.gc THEN [s |-> s1, panic |-> FALSE]
+             ELSE IF gc < c.gc THEN [s |-> s1, panic |-> FALSE]    \* (fix F-4) older watermark: ignored
              ELSE LET fd2 == IF x \in DOMAIN s1.fd THEN s1.fd
                              ELSE Put(s1.fd, x, [win |-> <<>>, last |-> -1])
                       c1 == CatchupSet(c, kvs, DOMAIN kvs, now)
-                      c2 == [c1 EXCEPT !.kv = Drop(@, (DOMAIN c.kv) \ (DOMAIN kvs)), !.gc = gc]
+                      \* (fix F-4) the snapshot's max version is recorded even without key-values
+                      c2 == [c1 EXCEPT !.kv = Drop(@, (DOMAIN c.kv) \ (DOMAIN kvs)), !.gc = gc,
+                                       !.max = IF @ < max THEN max ELSE @]
                       ok == c2.gc > c.gc \/ (c2.gc = c.gc /\ c2.max > c.max)
                   IN [s |-> [s1 EXCEPT !.fd = fd2, !.ns[x] = c2], panic |-> ~ok]
 
@@ -528,6 +531,99 @@ C12_Sets ==
     /\ st[n].live \subseteq DOMAIN st[n].ns
     /\ DOMAIN st[n].dead \subseteq DOMAIN st[n].ns
     /\ (DOMAIN st[n].gcd) \cap (DOMAIN st[n].ns) = {}
+
+\* C07 (structural half) -- what a reply carries for each member: only members not scheduled for
+\* deletion, exactly the sender's entries in (from, max], ascending, nothing else
+SchedSeen(n) == IF "sched" \in DOMAIN st'[n] THEN st'[n].sched ELSE SchedOf(st'[n], clock')
+C07_Structure ==
+  [][ Resetting \/ (("out" \in DOMAIN LastAct /\ "delta" \in DOMAIN LastAct.out /\ LastAct.a = "Process") =>
+        LET n == LastAct.n  d == LastAct.out.delta  dig == LastAct.msg.digest IN
+        \A x \in DOMAIN d :
+          /\ x \in DOMAIN st'[n].ns
+          /\ x \notin SchedSeen(n)
+          /\ LET c == st'[n].ns[x]  nd == d[x] IN
+             /\ nd.from \in {0, DgOf(dig, x).max}
+             /\ nd.gc = c.gc
+             /\ \A i \in 1..Len(nd.kvs) :
+                  LET e == nd.kvs[i] IN
+                  /\ e.ver > nd.from
+                  /\ e.k \in DOMAIN c.kv
+                  /\ c.kv[e.k].ver = e.ver /\ c.kv[e.k].val = e.v /\ c.kv[e.k].st = e.st
+                  /\ i > 1 => nd.kvs[i - 1].ver < e.ver
+             /\ nd.kvs # <<>> =>
+                  /\ nd.max = nd.kvs[Len(nd.kvs)].ver
+                  /\ {c.kv[k].ver : k \in {k \in DOMAIN c.kv : c.kv[k].ver > nd.from /\ c.kv[k].ver <= nd.max}}
+                       = {nd.kvs[i].ver : i \in 1..Len(nd.kvs)}
+             /\ nd.kvs = <<>> => nd.max \in {0, c.max}) ]_vars
+
+\* C12 -- quarantine, removal, no revival by stale gossip (action properties)
+EvalStep(n) == LastAct.a = "Liveness" /\ LastAct.n = n
+C12_Partition ==
+  [][ Resetting \/ \A n \in Node : EvalStep(n) =>
+        \A x \in (DOMAIN st'[n].ns) \ {n} :
+           (x \in st'[n].live) # (x \in DOMAIN st'[n].dead) ]_vars
+\* nothing the node sends mentions a member that has been dead for more than half the grace period
+Mentions(m) == (IF "digest" \in DOMAIN m THEN DOMAIN m.digest ELSE {})
+               \cup (IF "delta" \in DOMAIN m THEN DOMAIN m.delta ELSE {})
+C12_Quarantine ==
+  [][ Resetting \/ ("out" \in DOMAIN LastAct =>
+        LET n == LastAct.n IN
+        \A x \in DOMAIN st'[n].dead :
+           clock' > st'[n].dead[x] + Half => x \notin Mentions(LastAct.out)) ]_vars
+\* an evaluation leaves no member that has been dead for the full grace period
+C12_Removal ==
+  [][ Resetting \/ \A n \in Node : EvalStep(n) =>
+        /\ \A x \in DOMAIN st'[n].dead : clock' < st'[n].dead[x] + DeadGrace
+        /\ \A x \in DOMAIN st[n].dead :
+             (clock >= st[n].dead[x] + DeadGrace /\ x \notin st'[n].live) => x \notin DOMAIN st'[n].ns ]_vars
+\* a removed member re-appears only through a digest heartbeat strictly above the remembered one,
+\* never through catch-up, and is not live when it re-appears
+C12_NoRevival ==
+  [][ Resetting \/ \A n \in Node : \A x \in (DOMAIN st'[n].ns) \ (DOMAIN st[n].ns) :
+        /\ x \notin st'[n].live
+        /\ x \in DOMAIN st[n].gcd =>
+             /\ LastAct.a = "Process" /\ LastAct.n = n
+             /\ "digest" \in DOMAIN LastAct.msg
+             /\ x \in DOMAIN LastAct.msg.digest
+             /\ LastAct.msg.digest[x].hb > st[n].gcd[x] ]_vars
+
+\* C13 -- the watch channel after an evaluation
+CurrentOf(s, n) == [x \in (s.live \cup {n}) \cap DOMAIN s.ns |-> s.ns[x].max]
+ExactWatch(s, n) == [x \in {y \in DOMAIN CurrentOf(s, n) : PredHolds(s.ns[y])} |-> s.ns[x].max]
+\* (b) publication rule: a new value, exact at that moment, iff live set or a live max version changed
+C13_Publish ==
+  [][ Resetting \/ \A n \in Node : EvalStep(n) =>
+        IF CurrentOf(st'[n], n) # st[n].prev
+        THEN st'[n].wseq = st[n].wseq + 1 /\ st'[n].watch = ExactWatch(st'[n], n)
+        ELSE st'[n].wseq = st[n].wseq /\ st'[n].watch = st[n].watch ]_vars
+\* (a) exactness after every evaluation (scope: C12's step relation + plain writes, no tombstone GC)
+C13_Exact ==
+  [][ Resetting \/ \A n \in Node : EvalStep(n) => st'[n].watch = ExactWatch(st'[n], n) ]_vars
+\* the channel never changes outside an evaluation
+C13_OnlyEval ==
+  [][ Resetting \/ \A n \in Node : ~EvalStep(n) => (st'[n].watch = st[n].watch /\ st'[n].wseq = st[n].wseq) ]_vars
+
+\* C18 -- external catch-up
+C18_Catchup ==
+  [][ Resetting \/ (LastAct.a = "Catchup" =>
+        LET n == LastAct.n  x == LastAct.x  sup == LastAct.kvs IN
+        /\ st'[n].live = st[n].live
+        /\ \A y \in (DOMAIN st[n].ns) \ {x} : y \in DOMAIN st'[n].ns /\ st'[n].ns[y] = st[n].ns[y]
+        /\ (x \in DOMAIN st[n].gcd => x \notin DOMAIN st'[n].ns)
+        /\ x \in DOMAIN st'[n].ns =>
+             LET c2 == st'[n].ns[x]
+                 c1 == IF x \in DOMAIN st[n].ns THEN st[n].ns[x] ELSE NewCopy IN
+             /\ LexGe(c2, c1)
+             /\ \/ (c2.kv = c1.kv /\ c2.gc = c1.gc /\ c2.max = c1.max)
+                \/ /\ DOMAIN c2.kv = DOMAIN sup
+                   /\ \A k \in DOMAIN sup :
+                        IF k \in DOMAIN c1.kv /\ c1.kv[k].ver >= sup[k].ver
+                        THEN c2.kv[k] = c1.kv[k]
+                        ELSE c2.kv[k].val = sup[k].val /\ c2.kv[k].ver = sup[k].ver
+                             /\ c2.kv[k].st = sup[k].st) ]_vars
+
+C18_NoPanic ==
+  [][ Resetting \/ (LastAct.a = "Catchup" => ("panic" \notin DOMAIN LastAct /\ panic' = panic)) ]_vars
 
 \* C16 -- cluster isolation
 C16_Isolation ==
